@@ -425,6 +425,7 @@ Proof.
   - unfold h_mget in H1. destruct (nparts parts <? 2); [inversion H1; subst; exact Hw|].
     eapply wf_mget_loop; eauto.
   - unfold h_mset in H1. destruct ((nparts parts <? 3) || (nparts parts mod 2 =? 0)); [inversion H1; subst; exact Hw|].
+    destruct (mset_valid (tl parts)); [|inversion H1; subst; exact Hw].
     eapply (wf_mset_loop now (length (tl parts))); eauto.
   - unfold h_getset in H1. destruct (negb (nparts parts =? 3)); [inversion H1; subst; exact Hw|].
     destruct (nth_arg parts 1); [|inversion H1; subst; exact Hw].
